@@ -674,7 +674,31 @@ class ExprMixin:
         ia, ib = sorted([self.ident(a), self.ident(b)])
         if ia == ib:
             return TRUE
+        if isinstance(a, Sym) and isinstance(b, Sym) and self.is_enum_sym(a) and self.is_enum_sym(b):
+            # two enum-valued data: equal iff the same member (members are indexed injectively)
+            return self.enum_var(a) == self.enum_var(b)
         return self.smt.atom(f"eq!{ia}|{ib}")
+
+    def is_enum_sym(self, s: Sym) -> bool:
+        if not s.tags:
+            return False
+        for t in s.tags:
+            if t == "Enum":
+                continue
+            ci = self.repo.classes_by_short.get(t) if hasattr(self.repo, "classes_by_short") else None
+            if ci is None:
+                ci = next((c for c in self.repo.classes.values() if c.short == t), None)
+            if ci is None or not (isinstance(ci.live, type) and issubclass(ci.live, enum.Enum)):
+                return False
+        return True
+
+    def enum_var(self, s: Sym):
+        key = "enum!" + s.path
+        var = self.smt.ints.get(key)
+        if var is None:
+            var = self.smt.int(key)
+            self.smt.axioms.append(z3.And(var >= -1, var < 10_000))
+        return var
 
     def enum_eq(self, s: Sym, member):
         key = "enum!" + s.path
